@@ -15,7 +15,8 @@ class Undecided(Exception):
 
 class Part:
     """one function body to extract"""
-    def __init__(self, header, scopes, anchor, nth=0, expect_anchors=None, xform=None, tag=None):
+    def __init__(self, header, scopes, anchor, nth=0, expect_anchors=None, xform=None, tag=None, init_list=False):
+        self.init_list = init_list    # constructor: the member initialiser list `: m(e), n(f)` becomes `m = e; n = f;` in front of the body (INITLIST rule)
         self.header, self.scopes, self.anchor, self.nth = header, scopes, anchor, nth
         self.expect_anchors, self.xform, self.tag = expect_anchors, xform, tag
 
@@ -110,6 +111,24 @@ def extract_part(part, F, default_xform):
     if part.expect_anchors is not None and n_anchor != part.expect_anchors:
         raise Drift("anchor '%s' occurs %d times in scope, expected %d" % (part.anchor, n_anchor, part.expect_anchors))
     body = tk[o + 1:c]
+    if part.init_list:
+        k = o - 1; d = 0
+        # walk back from '{' to the ':' that starts the initialiser list (depth 0)
+        while k > 0:
+            t = tk[k]
+            if t in (')', '}'): d += 1
+            elif t in ('(', '{'): d -= 1
+            elif t == ':' and d == 0: break
+            k -= 1
+        init = tk[k + 1:o]; pre = []; q = 0
+        while q < len(init):
+            name = init[q]
+            if init[q + 1] not in ('(', '{'): raise Drift("unsupported member initialiser")
+            e = cxx2c.match_close(init, q + 1, init[q + 1], ')' if init[q + 1] == '(' else '}')
+            pre += [name, T('=', name.line)] + init[q + 2:e] + [T(';', name.line)]
+            F.hit('INITLIST'); q = e + 1
+            if q < len(init) and init[q] == ',': q += 1
+        body = pre + body
     orig = cxx2c.strip_pp(body)
     xf = part.xform or default_xform
     out = xf(list(body), F) if xf else cxx2c.strip_pp(body)
@@ -248,6 +267,19 @@ def build_unit(unit, workdir):
         f.write('/* generated by cxx2c from %s -- do not edit */\n' % ', '.join(i['header'] for i in infos))
         f.write('#include "prelude/common.h"\n')
         f.write(unit.pre_c + '\n')
+        # ghost/extern declarations of the spec files are hoisted (C allows repeated extern declarations): no order problems
+        hoist = []
+        for sp in spec_paths:
+            for line in open(sp):
+                for d in line.split(';'):
+                    d = d.strip()
+                    if re.match(r'extern\s+(const\s+)?(int|_Bool|char|size_t|uint\d+_t|type_t|event_t|EventSource|unsigned long long|slist_t|stref_t)\s+[\w\s,\[\]]+$', d) or \
+                       re.match(r'extern\s+(const\s+)?(void|fsm_t|int)\s*\*\s*(const\s+)?\w+$', d):
+                        hoist.append(d + ';')
+        for sp in spec_paths:
+            for m in re.finditer(r'#ifndef (\w+)\n#define \1 ([^\n]*)\n#endif', open(sp).read()):
+                hoist.insert(0, m.group(0))
+        f.write('\n'.join(hoist) + '\n')
         for s in unit.spec:
             f.write('#include "%s"\n' % s)
         f.write(unit.extra_c + '\n')
